@@ -77,7 +77,7 @@ PROPS['C16'] = dict(
     technique='contract-based deductive verification (Verus) of the verbatim Iter/EventIter bodies, of every From<&..> for RefNodes conversion, of the instantiated derive templates and of get_str/get_str_trim/unwrap_*!; pre-order and balanced-event theorems as lemmas over the step contracts',
     level_text='Deductive proof for all trees: Iter::next/EventIter::next satisfy their one-step stack contracts, from which lemmas show that iteration yields the node first and then its descendants in child order, that the event view is Enter(n) . events(children) . Leave(n) (balanced, nested) and that its Enter projection is the plain iteration; every tuple/Vec/Option/Box/Paren/List conversion yields its components in field order; the derive template enumerates self.nodes / the enum payload and starts iteration at the node itself; unwrap_node!/unwrap_locate! return the first match; get_str_trim spans the first to the last leaf not under a WhiteSpace node.',
     level_note='Assumed: RefNode is an opaque handle with finite height; vstd Vec specs and slice::reverse; the derive templates are verified on one stub struct and one stub enum instance (the template text is the same for all 1242 types); macro transcribers are verified with the immediately-invoked closure replaced by its body.',
-    not_covered=['Display/Debug of SyntaxTree', 'impl_ref_node template (RefNode::next / into_iter dispatch per variant)'],
+    not_covered=['that the build script generates one RefNode/AnyNode variant per derive(Node) type (the templates are verified on a five-variant instance)'],
 )
 
 ARMS_NOTE = 'The arms of preprocess_str are verified one by one (rule R-arm); the dispatch loop around them is assumed (A-glue). Callees carry contracts proved in other units (push/merge: pt; Locate::str: getstr; try_into fold: derive) or assumed on their real signature (preprocess_inner, resolve_text_macro_usage, identifier). Grammar invariants (each node has a contiguous leaf inside s, identifiers present) are preconditions.'
